@@ -331,7 +331,9 @@ def run(tier):
         if root is None:
             continue
         real_jobs.append((task, root))
-    out = common.pmap(MOD, "phase2", real_jobs, progress=200)
+    # big subtrees first (a deviation at an early point leaves the longest tail to explore): better load balance
+    real_jobs.sort(key=lambda j: (-(j[0][5] if j[0][4] == "D" else 99), len(j[1])))
+    out = common.pmap(MOD, "phase2", real_jobs, progress=400)
     states = set()
     transitions = 0
     per_task = {}
